@@ -9,6 +9,7 @@ import (
 	"fmt"
 	"io"
 	"testing"
+	"testing/iotest"
 
 	"github.com/wollac/iota-crypto-demo/pkg/ed25519"
 	"pgregory.net/rapid"
@@ -30,6 +31,12 @@ type signCase struct {
 var lengthCorners = []int{0, 1, 31, 32, 47, 48, 63, 64, 65, 95, 96, 111, 112, 113, 127, 128, 129, 175, 176, 191, 192, 239, 240, 255, 256, 257, 300}
 
 func regime(n int) string {
+	if n >= 65535 {
+		if n%65536 == 0 {
+			return "len/multiple-of-64KiB"
+		}
+		return "len/huge"
+	}
 	// SHA-512 padding regimes of prefix(32)||msg and R(32)||A(32)||msg: the number of blocks changes at
 	// 32+n = 112 mod 128 and 64+n = 112 mod 128
 	a := (32 + n) % 128
@@ -67,6 +74,21 @@ func (r *shortReader) Read(p []byte) (int, error) {
 type zeroOpts struct{}
 
 func (zeroOpts) HashFunc() crypto.Hash { return crypto.Hash(0) }
+
+// dataWithErrReader returns all it has together with a non-EOF error on the first call.
+type dataWithErrReader struct {
+	src  *bytes.Reader
+	done bool
+}
+
+func (r *dataWithErrReader) Read(p []byte) (int, error) {
+	if r.done {
+		return 0, io.ErrClosedPipe
+	}
+	r.done = true
+	n, _ := r.src.Read(p)
+	return n, io.ErrNoProgress
+}
 
 type failingReader struct{}
 
@@ -210,6 +232,27 @@ func checkSign(c signCase) (h.Info, error) {
 	if len(rd.data) != 2 {
 		return info, fmt.Errorf("GenerateKey consumed %d bytes, want 32", 34-len(rd.data))
 	}
+	// readers that deliver data together with an error, in halves, byte by byte: same outcome as
+	// crypto/ed25519 with an identical reader, and the same number of bytes consumed
+	stream := append(append([]byte{}, seed...), bytes.Repeat([]byte{0x77}, 40)...)
+	for ri, mk := range []func(src *bytes.Reader) io.Reader{
+		func(src *bytes.Reader) io.Reader { return iotest.DataErrReader(src) },
+		func(src *bytes.Reader) io.Reader { return iotest.DataErrReader(iotest.HalfReader(src)) },
+		func(src *bytes.Reader) io.Reader { return iotest.OneByteReader(src) },
+		func(src *bytes.Reader) io.Reader { return &dataWithErrReader{src: src} },
+		func(src *bytes.Reader) io.Reader { return io.LimitReader(src, 32) },
+		func(src *bytes.Reader) io.Reader { return iotest.DataErrReader(io.LimitReader(src, 32)) },
+	} {
+		s1, s2 := bytes.NewReader(stream), bytes.NewReader(stream)
+		wpub, wpriv, werr := stded.GenerateKey(mk(s1))
+		gpub2, gpriv2, gerr := ed25519.GenerateKey(mk(s2))
+		if (werr == nil) != (gerr == nil) || (werr == nil && (!bytes.Equal(gpriv2, wpriv) || !bytes.Equal(gpub2, wpub))) {
+			return info, fmt.Errorf("GenerateKey(reader kind #%d over seed %x) = %x, %x, %v; crypto/ed25519 with an identical reader: %x, %x, %v", ri, seed, gpub2, gpriv2, gerr, wpub, wpriv, werr)
+		}
+		if s1.Len() != s2.Len() {
+			return info, fmt.Errorf("GenerateKey(reader kind #%d) left %d bytes in the stream, crypto/ed25519 leaves %d", ri, s2.Len(), s1.Len())
+		}
+	}
 	if _, _, err := ed25519.GenerateKey(&shortReader{data: seed[:31]}); err == nil {
 		return info, fmt.Errorf("GenerateKey with a 31-byte reader must fail")
 	}
@@ -260,6 +303,15 @@ func genSign(t *rapid.T) signCase {
 		seed = bytes.Repeat([]byte{0xff}, 32)
 	}
 	var n int
+	if h.Pick(t, "huge", 40, 1) == 1 { // around and at multiples of 64 KiB (chunked hashing)
+		n = h.OneOf(t, "hl", 65535, 65536, 65537, 100000, 131071, 131072, 131073, 196608, 262144)
+		fill := rapid.Byte().Draw(t, "hfill")
+		m := make(h.B, n)
+		for i := range m {
+			m[i] = fill + byte(i*31+i>>8)
+		}
+		return signCase{Seed: seed, Msg: m}
+	}
 	switch h.Pick(t, "lk", 4, 4, 1) {
 	case 0:
 		n = h.OneOf(t, "corner", lengthCorners...)
@@ -275,8 +327,8 @@ func TestSign(t *testing.T) {
 	h.Run(t, h.Sub[signCase]{
 		Prop: "C07", Name: "sign-vs-stdlib", N: 6000,
 		Gen: genSign, Check: checkSign,
-		Require: []string{"len/empty", "len/extra-padding-block", "len/block-boundary", "len/multi-block", "len/short"},
-		Rule:    "32-byte seeds (random, zero, ones) x messages of length 0..2000 weighted to SHA-512 block/padding boundaries: key, public key, signature, crypto.Signer output byte-identical to crypto/ed25519; deterministic; Verify accepts; pre-hash options refused; GenerateKey(reader) = NewKeyFromSeed; all non-trivial; distinct by (seed, msg)",
+		Require: []string{"len/empty", "len/extra-padding-block", "len/block-boundary", "len/multi-block", "len/short", "len/multiple-of-64KiB", "len/huge"},
+		Rule:    "32-byte seeds (random, zero, ones) x messages of length 0..2000 weighted to SHA-512 block/padding boundaries (one in forty around multiples of 64 KiB up to 256 KiB): key, public key, signature, crypto.Signer output byte-identical to crypto/ed25519; deterministic; Verify accepts; pre-hash options refused; GenerateKey(reader) = NewKeyFromSeed; all non-trivial; distinct by (seed, msg)",
 	})
 }
 
